@@ -289,7 +289,7 @@ def run_tlc(
     _parse_tlc_output(res)
     shutil.rmtree(os.path.join(rundir, "md"), ignore_errors=True)
     if res.errors:
-        raise MachineryError("TLC error on %s: %s\n%s" % (module, res.errors[:3], res.out[-3000:]))
+        raise MachineryError("TLC error on %s: %s\n%s" % (module, res.errors[:3], "\n".join(l for l in res.out.splitlines() if not l.startswith(("Parsing file", "Semantic processing", "Linting")))[-1800:]))
     if res.violated and not allow_violation and workers != 1 and not simulate:
         # A multi-worker TLC run of this pre-release reported (once, not reproducibly) a violation that a
         # single-worker run does not show.  Design-level runs do not depend on /repo, so they are repeated
